@@ -57,8 +57,13 @@ MovedFrom(calls, j) == IF j > Len(calls) THEN 0
                        ELSE (IF calls[j].f \in XferF /\ calls[j].r = "ok" THEN calls[j].k ELSE IF calls[j].f = "consume" THEN calls[j].n ELSE 0) + MovedFrom(calls, j + 1)
 Moved(calls) == MovedFrom(calls, 1)
 
+(* Seek::seek_relative returns nothing: the new offset is what the inner stream's seek reported (call field k, capped at 2^30: *)
+(* beyond that the position is not judged)                                                                                     *)
+LastSeekOk(calls) == LET I == {j \in 1..Len(calls) : calls[j].f = "seek" /\ calls[j].r = "ok"} IN IF I = {} THEN 0 ELSE CHOOSE j \in I : \A q \in I : q <= j
 Step(S, r) ==
-    CASE r.op \in SeekOps -> IF r.tret.k = "ok" THEN [S EXCEPT !.pos = r.tret.n] ELSE S
+    CASE r.op = "seek_relative" -> LET j == LastSeekOk(r.calls) IN
+                                   IF j = 0 THEN S ELSE IF r.calls[j].k >= 1073741824 THEN [S EXCEPT !.pos = r.pos] ELSE [S EXCEPT !.pos = FromSmall(r.calls[j].k)]
+      [] r.op \in SeekOps -> IF r.tret.k = "ok" THEN [S EXCEPT !.pos = r.tret.n] ELSE S
       [] r.op = "poke" -> [S EXCEPT !.pos = FromSmall(1), !.msg = "z"]          \* the caller's own set_position(1), set_message("z")
       [] OTHER -> Fold(S, r.calls, 1)
 
